@@ -225,7 +225,7 @@ class Unit:
         if "R1" in enabled:
             t, n = R.r1_strip_attrs_comments(t, keep)
             self._count("R1", n)
-        for r in ("R2", "R5", "R4", "R6", "R16", "R17", "R3", "R10", "R15", "R18", "R20"):
+        for r in ("R2", "R5", "R4", "R6", "R16", "R17", "R3", "R10", "R15", "R18", "R18b", "R20"):
             if r in enabled:
                 t, n = R.RULES[r](t)
                 self._count(r, n)
